@@ -64,6 +64,7 @@ def run(ctx):
         import c08, c18
         ctx.guard(c08.keep_only, ctx, lambda: c18.who(ctx, cfg, fs), lambda o: o.key.startswith(('params::', '<params::')) and 'std::env::' in o.key, 'E.env-absence')
         ctx.guard(k5, ctx, cfg, fs)
+        ctx.guard(len_threaded, ctx, cfg, fs)
         ctx.guard(k6, ctx, cfg, fs)
 
 def k1(ctx, cfg, fs):
@@ -377,6 +378,56 @@ def k5(ctx, cfg, fs):
                     errs_ok = False
             ctx.ob('K5.loops', '%s:failure-is-returned' % short(b.path), errs_ok and bool(fl.err_edges),
                    '%s: no Ok return is reachable from the Err edge of parse_option: %s' % (short(b.path), errs_ok), where=c.where(), cfg=cfg)
+
+def in_cycle(b, x):
+    return any(x in reachable_edges(b, s_) for s_ in b.succ(x))
+
+def len_threaded(ctx, cfg, fs, rule='K5.loops'):
+    """parse_option reports a value only when the number of remaining items dropped below `*len` and then lowers
+    `*len`: that is a progress test only if the SAME counter is handed in on every iteration.  Each repetition
+    must pass a `&mut` of one variable that is set once, before the repetition starts."""
+    for b in sorted(fs.bodies.values(), key=lambda x: x.path):
+        for c in b.calls():
+            if not c.is_(r'^structs::parse_option$'):
+                continue
+            rs = provenance(b, c.args[1], c.bb, 'term', through=None)
+            ok = False; why = 'the counter is %s' % sorted('%s:%s' % (r.kind, r.what) for r in rs)
+            if b.kind == 'closure':
+                # captured by reference from the enclosing function, where it must be initialised outside any loop
+                ok = bool(rs) and all(r.kind == 'upvar' for r in rs)
+                par = fs.body(outer(b.path))
+                why = 'the counter is the captured variable %s of %s' % (sorted({r.what for r in rs}), short(par.path))
+                if ok:
+                    for r in rs:
+                        ls = [l for l, n in par.local_names.items() if n == r.what]
+                        for l in ls:
+                            ds = par.whole_defs(l)
+                            ok &= len(ds) == 1 and not in_cycle(par, ds[0][0])
+            else:
+                in_loop = c.target is not None and c.bb in reachable_edges(b, c.target)
+                locs = set()
+                for i, k, st in b.stmts():
+                    pass
+                # `&mut len`: a Ref root is reported as the place's own provenance; look at the operand chain directly
+                pl = op_place(c.args[1])
+                base = None
+                seen = set()
+                while pl is not None and pl[0] not in seen:
+                    seen.add(pl[0])
+                    ds = b.whole_defs(pl[0])
+                    if len(ds) == 1 and ds[0][2] == 'assign' and ds[0][3]['rv']['k'] in ('ref', 'rawptr'):
+                        nxt = ds[0][3]['rv']['place']
+                        if nxt[0] in b.local_names or not b.whole_defs(nxt[0]) or b.whole_defs(nxt[0])[0][3].get('rv', {}).get('k') not in ('ref', 'rawptr'):
+                            base = nxt[0]; break
+                        pl = nxt
+                    else:
+                        break
+                if base is not None:
+                    ds = b.whole_defs(base)
+                    once = len(ds) == 1 and not in_cycle(b, ds[0][0])        # single initialisation, not inside a loop
+                    ok = once or not in_loop
+                    why = 'the counter is `%s`, initialised %s' % (b.name_of(base), 'once before the loop' if once else 'at %d place(s), inside the loop' % len(ds))
+            ctx.ob(rule, '%s:same-counter-every-iteration' % short(b.path), ok, '%s: %s' % (short(b.path), why), where=c.where(), cfg=cfg)
 
 def k6(ctx, cfg, fs):
     # construction side
